@@ -1,5 +1,6 @@
 import Pendulum.Proofs.StartOf
 import Pendulum.Proofs.StartOfSub
+import Pendulum.Proofs.StartOfGen
 /-! # C12 — start_of/end_of delimit exactly the calendar unit that contains the value
 
 Model: `Model/StartOf.lean` (`startOf`, `endOf`, `boundDate`; the repaired tree: day-and-longer units go through
@@ -982,5 +983,123 @@ example : res (endOf .century 0 ⟨.fixed 3600000000, 0, false⟩) = some (97830
 example : (match boundDate .decade 0 6 false 0 with | .ok r => r | .error _ => 1) = 0 := by decide
 example : (match boundDate .month 0 6 true 0 with | .ok r => r | .error _ => 1) = 30 * DAY := by decide
 example : (match boundDate .decade 0 6 false ((5 * 365 - 719162) * DAY) with | .ok _ => false | .error e => e == .valueError) = true := by decide
+
+/-! ### the source itself: regenerated definitions (tools/gen_startof.py → `Pendulum.Gen.StartOf`) equal the model
+
+`Gen.StartOf` is re-translated from `datetime.py` / `date.py` on every run: one Lean definition per Python method
+(`set`, `_boundary`, every `_start_of_<unit>` / `_end_of_<unit>`, the dispatchers `start_of` / `end_of`, and for `Date`
+also `replace`, `next`, `previous` with their `while` loops). The theorems below state, for ALL inputs, that what the
+translated source computes is what the hand model `Model/StartOf.lean` (about which every theorem above speaks)
+computes, under the reading `StartOfGen.inst` of the parameter record (instance fields = civil fields of the wall
+value, `tz.utcoffset` = the zone table's `woff`, `weekday()`/`date.add(days=n)` = ordinal arithmetic,
+`calendar.monthrange` = the reference `daysInMonth`). What remains outside the translation is exactly what the
+statements show on their right-hand sides: the range check of the constructors and `DateTime.create` (`DTOps.create`). -/
+section source
+open Pendulum.StartOfGen Pendulum.Gen.StartOf
+
+/-- **`DateTime.start_of`**: for every unit, week start, zone, wall value and fold, the model's `startOf` is the
+    regenerated dispatcher + unit method + `set`/`_boundary`, followed by the constructor -/
+theorem start_of_source_eq_model (u : U) (wks wke : Int) (x : V) :
+    startOf u wks x =
+      (match dt_start_of (inst x wks wke) (unitName u) with
+       | .ok c => if ¬ inRange (callWall c) then .error (rangeErr u) else create x.z (callWall c) c.fold false
+       | .error _ => .error .valueError) := by
+  obtain ⟨z, w, f⟩ := x
+  rw [dt_start_of_eq, ofString_unitName]
+  simp only []
+  rw [start_label, start_fold]
+  unfold startOf bound edge
+  cases h : u.subDay <;> simp [h]
+
+/-- **`DateTime.end_of`**, likewise (`_WEEK_ENDS_AT` is the only week parameter it reads) -/
+theorem end_of_source_eq_model (u : U) (wks wke : Int) (x : V) :
+    endOf u wke x =
+      (match dt_end_of (inst x wks wke) (unitName u) with
+       | .ok c => if ¬ inRange (callWall c) then .error (rangeErr u) else create x.z (callWall c) c.fold false
+       | .error _ => .error .valueError) := by
+  obtain ⟨z, w, f⟩ := x
+  rw [dt_end_of_eq, ofString_unitName]
+  simp only []
+  rw [end_label, end_fold]
+  unfold endOf bound edge
+  cases h : u.subDay <;> simp [h]
+
+/-- the unit-name table: a string is dispatched to `_start_of_<unit>` / `_end_of_<unit>` exactly when the model knows the
+    unit, and every other string raises ValueError (no reachable method is missing: never AttributeError) -/
+theorem dispatch_source_eq_model (I : Inst) (s : String) :
+    dt_start_of I s = (match U.ofString? s with | some u => .ok (startCall I u) | none => .error "ValueError") ∧
+    dt_end_of I s = (match U.ofString? s with | some u => .ok (endCall I u) | none => .error "ValueError") :=
+  ⟨dt_start_of_eq I s, dt_end_of_eq I s⟩
+
+/-- per unit: the wall time the translated `_start_of_<unit>` / `_end_of_<unit>` requests is the model's first / last
+    label `lo` / `hi` of the unit — `self.year - self.year % YEARS_PER_DECADE`, `days_in_month`, the constants
+    23/59/999999 and the week arithmetic with `_WEEK_STARTS_AT` / `_WEEK_ENDS_AT` included — for all integers -/
+theorem unit_labels_source_eq_model (u : U) (z : ZRef) (w : Int) (fold : Bool) (wks wke : Int) :
+    callWall (startCall (inst ⟨z, w, fold⟩ wks wke) u) = lo u wks w ∧
+    callWall (endCall (inst ⟨z, w, fold⟩ wks wke) u) = hi u wke w :=
+  ⟨start_label u z w fold wks wke, end_label u z w fold wks wke⟩
+
+/-- `_boundary(year, month, day, last)`: the requested fields are that day at 00:00:00.000000 / 23:59:59.999999 and the
+    fold handed to `create` is the model's `edgeFold` (the instance's own unless the two `utcoffset`s differ) — for
+    every zone (named, fixed, naive), every target date and both values of `last` -/
+theorem boundary_source_eq_model (z : ZRef) (y0 m0 d0 t0 : Int) (fold : Bool) (wks wke y m d : Int) (last : Bool) :
+    callWall (dt_boundary (instF z y0 m0 d0 t0 fold wks wke) y m d last) = fieldsToWall y m d (if last then DAY - 1 else 0) ∧
+    (dt_boundary (instF z y0 m0 d0 t0 fold wks wke) y m d last).fold =
+      edgeFold z (fieldsToWall y m d (if last then DAY - 1 else 0)) last fold :=
+  ⟨boundary_wall z y0 m0 d0 t0 fold wks wke y m d last, (boundary_eq z y0 m0 d0 t0 fold wks wke y m d last).2.2.2.2⟩
+
+/-- `DateTime.set` (as `start_of` uses it, without `tz`): given fields replace the instance's, the fold is kept -/
+theorem set_source_eq_model (I : Inst) (oy om od oh omi os ous : Option Int) :
+    dt_set I oy om od oh omi os ous =
+      ⟨oy.getD I.year, om.getD I.month, od.getD I.day, oh.getD I.hour, omi.getD I.minute, os.getD I.second,
+       ous.getD I.microsecond, I.fold⟩ := set_eq I oy om od oh omi os ous
+
+/-- **`Date.start_of`** for a Date with proleptic ordinal `o` (every Date is one): hypotheses = the week start is a
+    weekday number and the `while` loop of `Date.previous` is given at least 6 iterations -/
+theorem date_start_of_source_eq_model (u : U) (wks wke o : Int) (fuel : Nat) (hf : 6 ≤ fuel) (hs : 0 ≤ wks ∧ wks ≤ 6) :
+    boundDate u wks wke false (ordWall o) =
+      (match date_start_of (instD o wks wke) fuel (unitName u) with
+       | .ok r => if ¬ inRange (resWall o r) then .error (rangeErr u) else .ok (resWall o r)
+       | .error _ => .error .valueError) := by
+  rw [date_start_of_eq, ofString_unitName]
+  simp only []
+  cases h : u.subDay
+  · obtain ⟨r, h1, h2⟩ := date_start_label u h o wks wke fuel hf hs
+    rw [h1]; simp only [h2, boundDate, h]; simp
+  · cases u <;> simp [U.subDay] at h <;> simp [boundDate, U.subDay, dateStartRes]
+
+/-- **`Date.end_of`**, likewise (`while` loop of `Date.next`) -/
+theorem date_end_of_source_eq_model (u : U) (wks wke o : Int) (fuel : Nat) (hf : 6 ≤ fuel) (he : 0 ≤ wke ∧ wke ≤ 6) :
+    boundDate u wks wke true (ordWall o) =
+      (match date_end_of (instD o wks wke) fuel (unitName u) with
+       | .ok r => if ¬ inRange (resWall o r) then .error (rangeErr u) else .ok (resWall o r)
+       | .error _ => .error .valueError) := by
+  rw [date_end_of_eq, ofString_unitName]
+  simp only []
+  cases h : u.subDay
+  · obtain ⟨r, h1, h2⟩ := date_end_label u h o wks wke fuel hf he
+    rw [h1]; simp only [h2, boundDate, h]; simp
+  · cases u <;> simp [U.subDay] at h <;> simp [boundDate, U.subDay, dateEndRes]
+
+/-- the day-by-day loops of `Date.previous` / `Date.next` (which the Date week units run) compute the closed-form day
+    shift that `DateTime._start_of_week` / `_end_of_week` use, whatever iteration bound ≥ 6 is supplied -/
+theorem date_walk_source_eq_closed_form (o wks wke wd : Int) (fuel : Nat) (hf : 6 ≤ fuel) (hwd : 0 ≤ wd ∧ wd ≤ 6) :
+    date_previous (instD o wks wke) fuel (some wd) = .ok (-((StartOf.dow o - wd - 1) % 7 + 1)) ∧
+    date_next (instD o wks wke) fuel (some wd) = .ok ((wd - StartOf.dow o - 1) % 7 + 1) :=
+  ⟨date_previous_eq o wks wke wd fuel hf hwd, date_next_eq o wks wke wd fuel hf hwd⟩
+
+/-! non-vacuity: the generated definitions compute; 1970-01-01 was a Thursday -/
+example : (dt_start_of (inst ⟨.naive, 0, false⟩ 0 6) "decade").toOption = some ⟨1970, 1, 1, 0, 0, 0, 0, false⟩ := by decide +kernel
+example : (dt_end_of (inst ⟨.naive, 0, false⟩ 0 6) "month").toOption = some ⟨1970, 1, 31, 23, 59, 59, 999999, false⟩ := by decide +kernel
+example : (dt_start_of (inst ⟨.naive, 0, false⟩ 0 6) "week").toOption = some ⟨1969, 12, 29, 0, 0, 0, 0, false⟩ := by decide +kernel
+example : (dt_end_of (inst ⟨.naive, 3723000004, true⟩ 0 6) "minute").toOption = some ⟨1970, 1, 1, 1, 2, 59, 999999, true⟩ := by decide +kernel
+example : (match dt_start_of (inst ⟨.naive, 0, false⟩ 0 6) "fortnight" with | .error e => e | .ok _ => "") = "ValueError" := by decide +kernel
+example : (dt_boundary (inst ⟨.named zMid, render zMid 129600000000, false⟩ 0 6) 1970 1 2 false).fold = true := by decide +kernel
+example : (date_start_of (instD 719163 0 6) 6 "week").toOption = some (.shift (-3)) := by decide +kernel
+example : (date_end_of (instD 719163 0 6) 6 "week").toOption = some (.shift 3) := by decide +kernel
+example : (date_end_of (instD 719163 0 6) 6 "century").toOption = some (.new 2000 12 31) := by decide +kernel
+example : (match date_start_of (instD 719163 0 6) 6 "hour" with | .error e => e | .ok _ => "") = "ValueError" := by decide +kernel
+
+end source
 
 end Pendulum.Props.C12
